@@ -13,6 +13,7 @@ import (
 	"verifharness/memds"
 	"verifharness/mon"
 	"verifharness/sched"
+	"verifharness/vh"
 )
 
 // ---- C06: Store survives restart and crash without loss or dangling head/tail pointers ----
@@ -253,8 +254,9 @@ func (e *env) runHistory(ops []c04Op, strictDeletes bool) ([]string, bool) {
 }
 
 // reopenOracle opens a fresh Store on image and applies the crash-recovery oracle.
-func c06Reopen(c *mon.Case, cfg Cfg, image *memds.DS, chainLen int, sig string, detail any) {
-	e := &env{c: c, d: image, cfg: cfg, chain: newChain(chainLen + 4), P: map[uint64]bool{}}
+func c06Reopen(c *mon.Case, cfg Cfg, image *memds.DS, chain *vh.Chain, chainLen int, sig string, detail any) {
+	// the chain of the history is passed in: header times (hence hashes) derive from the virtual clock at creation
+	e := &env{c: c, d: image, cfg: cfg, chain: chain, P: map[uint64]bool{}}
 	if err := e.open(); err != nil {
 		c.Violation(sig+"/open-fails", fmt.Sprint(err), detail)
 		return
@@ -459,9 +461,19 @@ func c06Crash(c *mon.Case, p c06P) {
 				after = unitShape(log[pfx-1])
 			}
 			sig := "crash/after=" + after + "/" + inDelete(pfx)
-			c06Reopen(c, p.Cfg, e.d.ImageAt(pfx), p.Chain, sig, map[string]any{"prefix": pfx, "of": len(log)})
+			c06Reopen(c, p.Cfg, e.d.ImageAt(pfx), e.chain, p.Chain, sig, map[string]any{"prefix": pfx, "of": len(log)})
 			if c.Violated() {
 				break
+			}
+			// crash followed by a transient write failure: the first write attempt(s) of the reopened Store fail
+			if pfx%3 == 0 {
+				img := e.d.ImageAt(pfx)
+				nfail := 1 + pfx%2
+				img.SetFailWrite(func(n int, u memds.Unit) bool { return n < nfail })
+				c06Reopen(c, p.Cfg, img, e.chain, p.Chain, sig+"/first-writes-fail", map[string]any{"prefix": pfx, "of": len(log), "failing_writes": nfail})
+				if c.Violated() {
+					break
+				}
 			}
 		}
 	})
@@ -516,7 +528,7 @@ func c06Faults(c *mon.Case, p c06P) {
 				return
 			}
 		}
-		c06Reopen(c, p.Cfg, img, p.Chain, "transient-faults/reopen", map[string]any{"fired": fired})
+		c06Reopen(c, p.Cfg, img, e.chain, p.Chain, "transient-faults/reopen", map[string]any{"fired": fired})
 	})
 }
 
@@ -583,7 +595,7 @@ func c06DelFaults(c *mon.Case, p c06P) {
 			c.Trivial()
 		}
 		img := e.d.ImageAt(e.d.LogLen())
-		c06Reopen(c, p.Cfg, img, p.Chain, "delete-faults@"+site+"/"+side+"/reopen", map[string]any{"fired": fired, "k": p.K})
+		c06Reopen(c, p.Cfg, img, e.chain, p.Chain, "delete-faults@"+site+"/"+side+"/reopen", map[string]any{"fired": fired, "k": p.K})
 	})
 }
 
